@@ -298,6 +298,7 @@ fn observe(req: &mut Req, wire: &Arc<Vec<u8>>, policy: Policy) -> Obs {
             write_max: None,
             repeat: None,
             repeat_cap: 0,
+            write_fail_at: None,
         },
         false,
     );
@@ -809,6 +810,24 @@ pub fn space() -> Vec<HeadSpec> {
             head_method: false,
             request_kind: 0,
         });
+    }
+    // (C0) very large limits (a caller's way of saying "no limit") leave ordinary heads alone
+    for m in [24_576usize, 24_577, 30_000, 32_768, 32_769, 1_000_000, usize::MAX] {
+        for n in [0usize, 3] {
+            let fields: Vec<FieldSpec> = (0..n).map(|i| fld(&format!("N{i}"), 1, format!("v{i}").as_bytes(), 0)).collect();
+            v.push(HeadSpec {
+                group: "count".into(),
+                version: "HTTP/1.1".into(),
+                code: 200,
+                reason: Reason::Text(b"OK".to_vec()),
+                fields,
+                body: b"xyz".to_vec(),
+                max_headers: Some(m),
+                reject: false,
+                head_method: false,
+                request_kind: 0,
+            });
+        }
     }
     // (C) field count against max_headers: m-1, m accepted; m+1 rejected
     for m in [0usize, 1, 2, 100] {
@@ -1323,7 +1342,7 @@ pub fn c04(ctx: &Ctx) -> Report {
         json!({
             "status": "codes 100..=999 x version token {HTTP/1.1, HTTP/1.0, ICY} x reason {absent, absent with trailing SP, OK, text with spaces/digits/obs-text}, one field behind the status line",
             "lists": "every list of length 0..=3 over 6 names (token alphabet, mixed case, digit, all 15 token symbols, one standard name) x 8 values (empty, plain, blanks around + inner SP/HTAB, obs-text, two bare-LF continuations, visible ASCII with ':' and no blank after the colon, blanks only), duplicates and case-variant duplicates included",
-            "count": "max_headers in {0,1,2,100} x field lines {m-1, m} accepted and m+1 rejected, distinct names and one repeated name",
+            "count": "max_headers in {0,1,2,100} x field lines {m-1, m} accepted and m+1 rejected, distinct names and one repeated name; heads of 0 and 3 fields under limits of 24576, 24577, 30000, 32768, 32769, 10^6 and usize::MAX",
             "te": "every list of length 1..=3 over 12 fields (Transfer-Encoding in two spellings, Content-Length, 8 other hop-by-hop/entity names, X-A) with at most one framing field",
             "size": "one 16000-byte value (with and without bare-LF continuations) between two case-variant fields; 60 field lines of 200 bytes over 20 names",
             "huge": "70 field lines of 16000 bytes over 35 names (1.1 MB, within max_headers and the line limit): contiguous, every single cut within 1 of a field-line end, uniform 8191/8192/65536",
